@@ -634,6 +634,15 @@ func c04RunEdge(R *vkit.Report, e c04Edge, c c04Case) {
 		c04Viol(R, "panic", e.Group+"|"+pn.Phase, fmt.Sprintf("contract edge %q: builder accepted it, then %s", e.Name, pn), c)
 		return
 	}
+	if problem != "" && strings.HasPrefix(e.Group, "valuelen") {
+		// The statement quantifies over FIXED-SIZE values: a value whose length differs from the declared
+		// value size is outside its precondition. What the builder does with it (truncate / zero-pad)
+		// is recorded as an observation, not decided against.
+		R.Outcome("edge:" + e.Group + ":observed-not-demanded")
+		R.Add("value_length_mismatch_silently_adjusted(not demanded)", 1)
+		R.Note("[%s] edge %q: %s (observation only: values of the wrong length are outside the statement's precondition)", c04Format, e.Name, problem)
+		return
+	}
 	if problem != "" {
 		R.Outcome("edge:" + e.Group + ":wrong-lookup")
 		c04Viol(R, "wrong-lookup", e.Group, fmt.Sprintf("contract edge %q (%d inserts, %s, declared %d): NewBuilder, Insert and Seal returned no error, but %s", e.Name, len(kvs), c04ShapeDesc(e.Shape), e.Declared, problem), c)
